@@ -1,7 +1,206 @@
 (* C05 - Hot-parameter QPS rules shape each parameter value independently.
-   Property theorems only; every proof is `exact <lemma>` from Proofs/. *)
-From SG Require Import Base.Prelude Base.GoInt Model.LRU Model.Hotspot Proofs.HotspotProofs.
+   Property theorems only; every proof is `exact <lemma>` from Proofs/.
+
+   Vocabulary (Proofs/HotspotCtrlProofs.v, HotspotEnvProofs.v, HotspotThrottleProofs.v):
+   - a controller history is a list of calls (arrival ms, value key, batch) on one rule's
+     PerformChecking: [ctrl_run] (reject mode) / [thr_run] (throttling mode), started on empty
+     caches [metric0]; [decs_for v] / [proj v] / [only v] select the decisions / (time, batch)
+     pairs / calls of value v;
+   - [fits r K calls]: all values of the history are real (non-NaN) keys of a duplicate-free list
+     K no longer than the rule's parameter capacity ("capacity not exceeded" - nothing is evicted);
+   - [calls_ok t0 tmax calls]: arrival times non-decreasing within [t0, tmax], batches uint32;
+   - [guard r v t0 tmax] (reject) / [tguard_all r K t0 tmax] (throttling): the no-overflow
+     guards - magnitudes below 2^62 and (tmax - t0) * threshold < 2^62, resp. threshold > 0,
+     2^32 * duration_ms < 2^53, max queueing < 2^40 ms, |clock| < 2^61.  Outside the reject
+     guard the property is false (C05_idle_grant_refuted, finding C05-F2). *)
+From SG Require Import Base.Prelude Base.GoInt Model.LRU Model.Hotspot
+  Proofs.LRUProofs Proofs.HotspotProofs Proofs.HotspotBucketProofs Proofs.HotspotCtrlProofs
+  Proofs.HotspotEnvProofs Proofs.HotspotThrottleProofs Proofs.HotspotRunProofs Proofs.HotspotDemo.
 #[local] Open Scope Z_scope.
+
+(* ---- the parameter cache ---------------------------------------------------------------------- *)
+
+(* while the distinct keys fit the capacity, the LRU answers every operation sequence exactly as
+   an unbounded total map does (nothing is lost) ... *)
+Theorem LRU_refines_map : forall (cap : Z) (K : list Z), NoDup K -> Z.of_nat (length K) <= cap ->
+  forall (ops : list (lru_op Z)) (l : lru Z) (m : tmap Z),
+  Forall (fun o => In (op_key o) K /\ real_key (op_key o)) ops ->
+  NoDup (lru_keys l) -> incl (lru_keys l) K -> agrees l m ->
+  snd (lru_run cap l ops) = snd (map_run m ops) /\
+  agrees (fst (lru_run cap l ops)) (fst (map_run m ops)).
+Proof. exact (@lru_refines_map Z). Qed.
+
+(* ... and a new key entering a full cache removes exactly the least recently touched key *)
+Theorem LRU_evicts_oldest : forall (cap k v : Z) (l : lru Z),
+  lru_find k l = None -> Z.of_nat (length l) = cap -> 1 <= cap ->
+  fst (lru_add_if_absent cap k v l) = (k, v) :: removelast l /\
+  lru_keys l = removelast (lru_keys l) ++ [last (lru_keys l) 0].
+Proof. exact (@lru_evicts_oldest Z). Qed.
+
+Example LRU_refines_map_nonvacuous :
+  let ops := [OpAddIfAbsent 5 10; OpAddIfAbsent 6 20; OpGet 5; OpSet 5 11; OpAddIfAbsent 5 0; OpGet 7] in
+  snd (lru_run 2 [] ops) = [None; None; Some 10; None; Some 11; None] /\
+  snd (lru_run 2 [] ops) = snd (map_run tm_empty ops).
+Proof. vm_compute. split; reflexivity. Qed.
+
+(* ---- lockstep of the two caches: the `for` loop never spins ------------------------------------- *)
+
+(* reject mode, any history over any keys (NaN included), evictions allowed: the time cache and
+   the token cache hold the same key sequence, so "time present, token absent" never occurs *)
+Theorem C05_lockstep : forall r calls m, lockstep m ->
+  lockstep (fst (ctrl_run r m calls)) /\ Forall (fun d => d <> DSpin) (snd (ctrl_run r m calls)).
+Proof. exact ctrl_run_lockstep_any. Qed.
+
+(* through the public API: no operation of any Entry/Exit/Tick history over any rule set ever
+   observes the branch in which PerformChecking would loop without progress *)
+Theorem C05_no_spin : forall rules adv clk0 ops,
+  Forall (fun o => o <> OSpin) (snd (run rules adv (init clk0) ops)).
+Proof. exact run_no_spin. Qed.
+
+(* ---- tokens ------------------------------------------------------------------------------------- *)
+
+(* every token count stored by a reject-mode rule is >= 0 in every reachable state (no guard) *)
+Theorem C05_tokens_nonneg : forall rules adv clk0 ops, batches_nonneg ops ->
+  let s := fst (run rules adv (init clk0) ops) in
+  forall res i r m, nth_error (rules res) i = Some r -> nth_error (metrics_of rules s res) i = Some m ->
+  is_reject r = true -> forall k tok, alookup k (m_tok m) = Some tok -> 0 <= tok.
+Proof. exact run_tokens_nonneg. Qed.
+
+Example C05_tokens_nonneg_nonvacuous :
+  batches_nonneg api_ops /\
+  map m_tok (metrics_of api_rules (fst (run api_rules true (init 0) api_ops)) 0) = [[(5, 1)]] /\
+  snd (run api_rules true (init 0) api_ops) = [OPass []; OPass []].
+Proof. exact api_demo. Qed.
+
+(* ... and never above threshold + burst of its value (guarded, not evicted) *)
+Theorem C05_tokens_range : forall r K v t0 tmax calls,
+  guard r v t0 tmax -> fits r K calls -> calls_ok t0 tmax calls -> 0 < tok_count r v ->
+  match alookup v (m_tok (fst (ctrl_run r metric0 calls))) with
+  | Some tok => 0 <= tok <= tok_count r v + r_burst r
+  | None => True
+  end.
+Proof. exact ctrl_tokens_range. Qed.
+
+(* ---- reject mode: envelopes --------------------------------------------------------------------- *)
+
+(* tokens admitted for v <= (T_v + burst) + T_v * elapsed / D, elapsed counted from t0 <= first
+   sight of v to the last request of v; stated without division *)
+Theorem C05_envelope_total : forall r K v t0 tmax calls,
+  guard r v t0 tmax -> fits r K calls -> calls_ok t0 tmax calls -> 0 < tok_count r v ->
+  let T := tok_count r v in let B := r_burst r in let D := r_dur r * 1000 in
+  let adm := adm_of v calls (snd (ctrl_run r metric0 calls)) in
+  D * (admitted_tokens (proj v calls) adm - (T + B)) <= T * (last_time t0 (proj v calls) - t0).
+Proof. exact ctrl_envelope_total. Qed.
+
+(* tokens admitted for v at arrival times inside any [lo, hi] no longer than one duration
+   <= 2 * (T_v + burst) *)
+Theorem C05_envelope_window : forall r K v t0 tmax calls lo hi,
+  guard r v t0 tmax -> fits r K calls -> calls_ok t0 tmax calls -> 0 < tok_count r v ->
+  hi - lo <= r_dur r * 1000 ->
+  let adm := adm_of v calls (snd (ctrl_run r metric0 calls)) in
+  admitted_in lo hi (proj v calls) adm <= 2 * (tok_count r v + r_burst r).
+Proof. exact ctrl_envelope_window. Qed.
+
+(* a request for v with a batch up to T_v arriving more than one duration after the previous
+   request for v (or as the first one) is admitted *)
+Theorem C05_idle_grant : forall r K v t0 tmax calls now b,
+  guard r v t0 tmax -> fits r K (calls ++ [(now, v, b)]) -> calls_ok t0 tmax (calls ++ [(now, v, b)]) ->
+  0 < tok_count r v -> b <= tok_count r v ->
+  r_dur r * 1000 < now - last_time t0 (proj v calls) ->
+  last (snd (ctrl_run r metric0 (calls ++ [(now, v, b)]))) DSpin = DPass.
+Proof. exact ctrl_idle_grant. Qed.
+
+(* finding C05-F2: without the guard ((tmax - t0) * T < 2^62) the idle grant is false - the
+   int64 product elapsed_ms * threshold wraps negative and the idle value is refused *)
+Theorem C05_idle_grant_refuted : exists r K v t0 tmax calls now b,
+  fits r K (calls ++ [(now, v, b)]) /\ calls_ok t0 tmax (calls ++ [(now, v, b)]) /\
+  0 < tok_count r v /\ b <= tok_count r v /\
+  r_dur r * 1000 < now - last_time t0 (proj v calls) /\
+  last (snd (ctrl_run r metric0 (calls ++ [(now, v, b)]))) DSpin = DBlock None.
+Proof. exists f2_rule, [5], 5, d_t0, d_tmax, f2_calls, (d_t0 + 1025), 1. exact f2_witness. Qed.
+
+Example C05_reject_nonvacuous :
+  guard d_rule 5 d_t0 d_tmax /\ guard d_rule 6 d_t0 d_tmax /\ fits d_rule d_K d_calls /\
+  calls_ok d_t0 d_tmax d_calls /\ 0 < tok_count d_rule 5 /\
+  snd (ctrl_run d_rule metric0 d_calls) =
+    [DPass; DPass; DPass; DPass; DPass; DBlock None; DBlock None; DBlock None].
+Proof. exact (conj d_guard5 (conj d_guard6 (conj d_fits (conj d_calls_ok (conj d_T5 d_run))))). Qed.
+
+Example C05_idle_grant_nonvacuous :
+  guard d_rule 5 d_t0 d_tmax /\ fits d_rule d_K (d_calls ++ [d_idle]) /\
+  calls_ok d_t0 d_tmax (d_calls ++ [d_idle]) /\ 0 < tok_count d_rule 5 /\ 2 <= tok_count d_rule 5 /\
+  r_dur d_rule * 1000 < d_t0 + 1401 - last_time d_t0 (proj 5 d_calls).
+Proof.
+  exact (conj d_guard5 (conj d_fits_idle (conj d_calls_ok_idle (conj d_T5 (conj (Z.le_refl 2) d_idle_gap))))).
+Qed.
+
+(* ---- throttling mode ---------------------------------------------------------------------------- *)
+
+(* consecutive scheduled pass times (arrival + requested wait) of the admitted requests for v
+   are at least floor(batch * duration_ms / T_v) apart: the spacing the code computes in whole
+   milliseconds ([spacing]; [schedule] pairs every admitted request's scheduled time with the
+   spacing of that request, [spaced] says each is >= previous + its spacing) *)
+Theorem C05_throttle_spacing : forall r K v t0 tmax calls,
+  tguard_all r K t0 tmax -> fits r K calls -> calls_ok t0 tmax calls -> In v K ->
+  spaced None (schedule (pcalls r v calls) (waits_of v calls (snd (thr_run r metric0 calls)))).
+Proof. exact thr_spacing. Qed.
+
+(* finding C05-F1: the exact spacing batch * duration / T_v is not kept: under all hypotheses of
+   C05_throttle_spacing two requests are scheduled s1, s2 with (s2 - s1) * T_v < batch * D_ms *)
+Theorem C05_throttle_exact_spacing_refuted : exists r K v t0 tmax calls s1 s2 b,
+  tguard_all r K t0 tmax /\ fits r K calls /\ calls_ok t0 tmax calls /\ In v K /\
+  calls = [(s1, v, b); (s2, v, b)] /\
+  snd (thr_run r metric0 calls) = [DPass; DPass] /\
+  (s2 - s1) * tok_count r v < b * (r_dur r * 1000).
+Proof.
+  exists f1_rule, [5], 5, 1700000000000, 1700000100000, f1_calls, 1700000000000, 1700000000000, 1.
+  destruct f1_hyps as [H1 [H2 H3]]. destruct f1_witness as [H4 _].
+  split; [exact H1|]. split; [exact H2|]. split; [exact H3|]. split; [left; reflexivity|].
+  split; [reflexivity|]. split; [exact H4|]. cbn. lia.
+Qed.
+
+(* an admitted request waits 0 ms or a positive time below the maximum queueing time *)
+Theorem C05_throttle_wait : forall r K v t0 tmax calls,
+  tguard_all r K t0 tmax -> fits r K calls -> calls_ok t0 tmax calls -> In v K ->
+  Forall (fun w => match w with Some w => 0 <= w /\ (0 < w -> w < r_maxq r) | None => True end)
+         (waits_of v calls (snd (thr_run r metric0 calls))).
+Proof. exact thr_wait. Qed.
+
+Example C05_throttle_nonvacuous :
+  tguard_all t_rule d_K d_t0 d_tmax /\ fits t_rule d_K t_calls /\ calls_ok d_t0 d_tmax t_calls /\
+  snd (thr_run t_rule metric0 t_calls) =
+    [DPass; DPass; DWait 250000000; DWait 500000000; DBlock None; DWait 490000000; DPass].
+Proof. exact (conj t_guard (conj t_fits (conj t_calls_ok t_run))). Qed.
+
+(* ---- independence ------------------------------------------------------------------------------- *)
+
+(* while the values fit the capacity, the decisions for v in a multi-value history are those of
+   one token bucket (exact integer arithmetic, no cache) fed with v's sub-history alone ... *)
+Theorem C05_independence_bucket : forall r K v t0 tmax calls,
+  guard r v t0 tmax -> fits r K calls -> calls_ok t0 tmax calls ->
+  let T := tok_count r v in let B := r_burst r in let D := r_dur r * 1000 in
+  decs_for v calls (snd (ctrl_run r metric0 calls)) =
+    map dec_of (snd (bucket_run T B D None (proj v calls))) /\
+  cell (fst (ctrl_run r metric0 calls)) v = fst (bucket_run T B D None (proj v calls)).
+Proof. exact ctrl_run_bucket. Qed.
+
+(* ... hence equal to the decisions of the same controller run on the history restricted to v *)
+Theorem C05_independence : forall r K v t0 tmax calls,
+  guard r v t0 tmax -> fits r K calls -> calls_ok t0 tmax calls -> In v K ->
+  decs_for v calls (snd (ctrl_run r metric0 calls)) = snd (ctrl_run r metric0 (only v calls)).
+Proof. exact ctrl_run_independence. Qed.
+
+Theorem C05_independence_throttle : forall r K v t0 tmax calls,
+  tguard_all r K t0 tmax -> fits r K calls -> calls_ok t0 tmax calls -> In v K ->
+  decs_for v calls (snd (thr_run r metric0 calls)) = snd (thr_run r metric0 (only v calls)).
+Proof. exact thr_run_independence. Qed.
+
+(* a value whose threshold is <= 0 is always refused, whatever the other values do (no guard) *)
+Theorem C05_nonpositive_threshold : forall r v calls m, tok_count r v <= 0 ->
+  Forall (fun d => d = DBlock None) (decs_for v calls (snd (ctrl_run r m calls))).
+Proof. exact ctrl_run_nonpositive. Qed.
+
+(* ---- slot level ---------------------------------------------------------------------------------- *)
 
 (* requests that do not carry the selected argument of any rule of the resource pass Slot.Check
    without a wait and leave every controller's statistics untouched *)
@@ -20,6 +219,29 @@ Theorem C05_specific_threshold_check : forall r m now k b,
   perform_checking r m now k b = perform_checking (with_threshold r (tok_count r k)) m now k b.
 Proof. exact perform_checking_threshold. Qed.
 
+(* a reject-mode QPS rule's PerformChecking is [reject_check], the function the histories run *)
+Theorem C05_controller_is_reject_check : forall r m now k b, is_reject r = true ->
+  perform_checking r m now k b = reject_check r m now k b.
+Proof. exact perform_checking_reject. Qed.
+
+Print Assumptions LRU_refines_map.
+Print Assumptions LRU_evicts_oldest.
+Print Assumptions C05_lockstep.
+Print Assumptions C05_no_spin.
+Print Assumptions C05_tokens_nonneg.
+Print Assumptions C05_tokens_range.
+Print Assumptions C05_envelope_total.
+Print Assumptions C05_envelope_window.
+Print Assumptions C05_idle_grant.
+Print Assumptions C05_idle_grant_refuted.
+Print Assumptions C05_throttle_spacing.
+Print Assumptions C05_throttle_exact_spacing_refuted.
+Print Assumptions C05_throttle_wait.
+Print Assumptions C05_independence_bucket.
+Print Assumptions C05_independence.
+Print Assumptions C05_independence_throttle.
+Print Assumptions C05_nonpositive_threshold.
 Print Assumptions C05_no_arg_unlimited.
 Print Assumptions C05_specific_threshold.
 Print Assumptions C05_specific_threshold_check.
+Print Assumptions C05_controller_is_reject_check.
